@@ -4,7 +4,7 @@ import worldhist as WH
 import worldgen as W
 import radlib as R
 ID = "C17"
-LEAN_TARGETS = ["Rsp.Props.C17", "Rsp.Props.C17Inv", "Rsp.Props.C17Radsrv", "Rsp.Tie.C17"]
+LEAN_TARGETS = ["Rsp.Props.C17", "Rsp.Props.C17Inv", "Rsp.Props.C17Radsrv", "Rsp.Props.C17Replyh", "Rsp.Props.C17Tame", "Rsp.Props.C17Writer", "Rsp.Tie.C17"]
 THEOREMS = ["Rsp.Tie.C17.lockExprs_classified", "Rsp.Props.C17.no_waits_for_cycle", "Rsp.Props.C17.chain_rank_increases", "Rsp.Props.C17.edgeOk_sound",
             "Rsp.Props.C17.freerq_keeps", "Rsp.Props.C17.freerq_last", "Rsp.Props.C17.freerq_other", "Rsp.Props.C17.freerq_absent",
             "Rsp.Props.C17.freerq_inv", "Rsp.Props.C17.newrqref_inv", "Rsp.Props.C17.cacheFill_inv", "Rsp.Props.C17.cacheClear_inv", "Rsp.Props.C17.qPush_inv",
@@ -12,7 +12,12 @@ THEOREMS = ["Rsp.Tie.C17.lockExprs_classified", "Rsp.Props.C17.no_waits_for_cycl
             "Rsp.Props.C17.popReplies_inv", "Rsp.Props.C17.removeclient_inv", "Rsp.Props.C17.removeclient_clears", "Rsp.Props.C17.sendreply_inv",
             "Rsp.Props.C17.rmclientrq_inv", "Rsp.Props.C17.internalSendrq_inv", "Rsp.Props.C17.scanSlots_inv", "Rsp.Props.C17.sendrqPlace_inv", "Rsp.Props.C17.sendrq_inv",
             "Rsp.Props.C17.respond_inv", "Rsp.Props.C17.addclientrq_inv", "Rsp.Props.C17.purgedupcache_inv", "Rsp.Props.C17.choosesrv_inv",
-            "Rsp.Props.C17.radsrvForward_inv", "Rsp.Props.C17.radsrvRoute_inv", "Rsp.Props.C17.radsrvRewrite_inv", "Rsp.Props.C17.radsrvCore_inv", "Rsp.Props.C17.radsrv_inv"]
+            "Rsp.Props.C17.radsrvForward_inv", "Rsp.Props.C17.radsrvRoute_inv", "Rsp.Props.C17.radsrvRewrite_inv", "Rsp.Props.C17.radsrvCore_inv", "Rsp.Props.C17.radsrv_inv",
+            "Rsp.Props.C17.replyhDeliver_inv", "Rsp.Props.C17.replyhCore_inv", "Rsp.Props.C17.replyh_inv",
+            "Rsp.Props.C17.tame_sendrq", "Rsp.Props.C17.tame_radsrv", "Rsp.Props.C17.tame_replyh",
+            "Rsp.Props.C17.writerSlot_inv", "Rsp.Props.C17.writerScan_inv", "Rsp.Props.C17.newrequest_inv", "Rsp.Props.C17.writerPass_good",
+            "Rsp.Props.C17.writerOp_good", "Rsp.Props.C17.step_good", "Rsp.Props.C17.initial_good", "Rsp.Props.C17.initialOk_sound",
+            "Rsp.Props.C17.history_good", "Rsp.Props.C17.history_counts", "Rsp.Props.C17.history_rmclient_clears"]
 RULE = ("histories over {request, retransmission, identifier reuse, reply, bogus reply, writer timer step, clock advance, connection reset, client disconnect} on 2-4 "
         "associations and 1-3 servers, closed by disconnecting every client and running all timers out; after EVERY operation the real objects' reference counts are compared "
         "with the number of slots/cache entries/queue entries pointing at them; the mutex pairs (held, acquired) exhibited by the real code are checked against the ranked "
